@@ -447,11 +447,10 @@ mod pool {
                             let Some(t) = t else { break };
                             let id = self.next_task.fetch_add(1, Ordering::SeqCst);
                             shuttle::thread::sleep(std::time::Duration::from_millis(0));
-                            let prev = crate::dbx::set_current_task(id);
+                            let _restore = crate::dbx::TaskGuard(crate::dbx::set_current_task(id));
                             if let Err(p) = std::panic::catch_unwind(std::panic::AssertUnwindSafe(t)) {
                                 panicked.lock().unwrap().get_or_insert(p);
                             }
-                            crate::dbx::set_current_task(prev);
                         }
                     });
                 }
@@ -783,7 +782,7 @@ pub fn run_level(opts: &Opts) -> LevelSummary {
             if out.tasks_with_queries >= 2 {
                 sum.runs_with_parallel_queries += 1;
             }
-            sum.log.push(format!("{} plan={} obs={} raw={} attr={}", corpus[i].0.name, hex64(fnv64(serde_json::to_string(&plan).unwrap().as_bytes())), hex64(fnv64(format!("{:?}", out.obs).as_bytes())), hex64(out.raw_sig), hex64(out.attr_sig)));
+            sum.log.push(format!("{} plan={} obs={} raw={} attr={} q={} tasks={}", corpus[i].0.name, hex64(fnv64(serde_json::to_string(&plan).unwrap().as_bytes())), hex64(fnv64(format!("{:?}", out.obs).as_bytes())), hex64(out.raw_sig), hex64(out.attr_sig), out.queries_executed, out.tasks_run));
             if sum.samples.len() < 3 && !plan.prefix.is_empty() {
                 sum.samples.push(json!({"project": corpus[i].0.name, "plan": plan, "tasks_run": out.tasks_run, "queries_executed": out.queries_executed, "raw_id_signature": hex64(out.raw_sig)}));
             }
